@@ -6,7 +6,7 @@ from .pkt import SYN, ACK, PSH, FIN, RST, URG, ECE, CWR, NS, P_ICMP, P_ICMP6, P_
 from .driver import Config
 from .protos import http, dns, stun, rpc, smb, sshghost
 
-PORTS = [0, 1, 22, 53, 80, 111, 139, 445, 3478, 8080, 65534, 65535]
+PORTS = [0, 1, 22, 53, 80, 111, 139, 445, 3478, 8080, 65534, 65535, 443, 8443, 21, 23, 25, 110, 143, 389, 993, 1080, 1433, 3306, 3389, 5060, 5432, 5900, 6379, 8000, 8888, 9200, 1023, 1024, 2049, 5349]
 
 
 def rnd_mac(rng, unicast=True):
